@@ -132,6 +132,22 @@ Theorem C17_rem : forall w M, 8 <= M ->
 Proof. exact wp_rem_mag. Qed.
 Print Assumptions C17_rem.
 
+(** Buffer::into_boxed_slice (ConstLargeDivisor::new, ReducedLarge::{one, from_ubig}, inv_large,
+    convert_from_normalized): realloc is handed the layout the block was allocated with, and the Box<[Word]> owns
+    a block of exactly len words ... *)
+Theorem C17_into_boxed_slice : forall (b : buffer) (F : list (Z * Z)) (m : mem) (Q : option Z * list Z -> mem -> Prop),
+  Own (bblk b :: F) m ->
+  (forall bx m', Own (box_blks bx ++ F) m' -> snd bx = bws b -> Q bx m') ->
+  safe (into_boxed_slice b) m Q.
+Proof. exact wp_into_boxed_slice. Qed.
+Print Assumptions C17_into_boxed_slice.
+
+(** ... so that dropping the box frees the block with the size it was last (re)allocated with *)
+Theorem C17_drop_box : forall (bx : option Z * list Z) (F : list (Z * Z)) (m : mem) (Q : unit -> mem -> Prop),
+  Own (box_blks bx ++ F) m -> (forall m', Own F m' -> Q tt m') -> safe (drop_box bx) m Q.
+Proof. exact wp_drop_box. Qed.
+Print Assumptions C17_drop_box.
+
 (** all thirteen binary operators of the machine: UBig + - * & | ^ / %, IBig + - * / % through the sign tables *)
 Theorem C17_binary_operators : forall w M, 8 <= M ->
   forall (f : binop) (s0 : sign) (a : targ) (s1 : sign) (b : targ) (F : list (Z * Z)) (m : mem) (Q : outcome -> mem -> Prop),
@@ -168,8 +184,8 @@ Print Assumptions C17_clear_bit.
 
 (** EVERY step of the machine - construction from words / double words / ones, clone, clone_from of a value or a
     static, drop, move, swap, neg, abs, the thirteen binary operators (+ - * & | ^ / % and the signed + - * / %) in every call form (operands by value, by
-    reference, static; a by-value operand is moved out of its slot), shl, shr, set_bit, clear_bit, and the
-    oracle's re-synchronisation device - preserves the invariant of the whole pool and the heap ledger.
+    reference, static; a by-value operand is moved out of its slot), shl, shr, set_bit, clear_bit, the move of a value into a ConstDivisor
+    (Buffer -> Box<[Word]>) with its read-back and drop, and the oracle's re-synchronisation device - preserves the invariant of the whole pool and the heap ledger.
     [op_ok] admits every constructor of [op]: slots exist, statics are normalized, bit counts are >= 0.
     (full version of the former C17_step_storage_ops_partial) *)
 Theorem C17_step_storage_ops : forall w M, 0 < w -> 8 <= M ->
